@@ -113,7 +113,7 @@ def main():
             "guard": "cargo feature verif-hooks of truc_runtime",
             "enable": "harness crate vdrive enables truc_runtime/verif-hooks through its feature `hooks` (path dependency on /repo/truc_runtime); build configurations A (debug) and C (release) of e3_gencrate use it",
             "baseline_off_cmd": "cd /repo && cargo test --workspace --no-fail-fast --offline",
-            "source_commits": ["da335f3", "890687c"],
+            "source_commits": ["da335f3", "890687c", "25e96a6"],
             "add_only": True,
         },
         "engines": [
